@@ -2,8 +2,8 @@
 
 // Package vsync stands in for sync in the verification build (see vatomic): lock operations are
 // scheduling points of the controlled scheduler, which also models lock ownership (a thread
-// waiting for a held lock is not enabled; no enabled thread = deadlock). Everything else is the
-// real sync type.
+// waiting for a held lock is not enabled; no enabled thread = deadlock). sync.Pool is a
+// deterministic free list whose operations are scheduling points; everything else is the real sync type.
 package vsync
 
 import (
@@ -14,7 +14,6 @@ import (
 
 type Locker = sync.Locker
 type WaitGroup = sync.WaitGroup
-type Pool = sync.Pool
 type Map = sync.Map
 type Cond = sync.Cond
 
@@ -68,4 +67,35 @@ func (o *Once) Do(f func()) {
 func OnceFunc(f func()) func() {
 	var o Once
 	return func() { o.Do(f) }
+}
+
+// Pool: a deterministic LIFO free list (sync.Pool may return any pooled item or none, so this is
+// one of its legal behaviours); Get and Put are scheduling points, so two threads that are handed
+// the same pooled object are explored.
+type Pool struct {
+	New   func() interface{}
+	mu    sync.Mutex
+	items []interface{}
+}
+
+func (p *Pool) Get() interface{} {
+	verifhook.Atomic(p, "sync.Pool.Get")
+	p.mu.Lock()
+	var x interface{}
+	if n := len(p.items); n > 0 {
+		x = p.items[n-1]
+		p.items = p.items[:n-1]
+	}
+	p.mu.Unlock()
+	if x == nil && p.New != nil {
+		x = p.New()
+	}
+	return x
+}
+
+func (p *Pool) Put(x interface{}) {
+	verifhook.Atomic(p, "sync.Pool.Put")
+	p.mu.Lock()
+	p.items = append(p.items, x)
+	p.mu.Unlock()
 }
